@@ -971,9 +971,35 @@ def show(t):
     if isinstance(t, Token):
         return [str(t.type), str(t)]
     return repr(t)
+def forest_order(root):
+    # the packed children of every symbol node, in insertion order and in `children` order, without ids
+    from lark.parsers.earley_forest import TokenNode
+    def lab(n):
+        if n is None:
+            return None
+        if isinstance(n, TokenNode):
+            return ['T', str(n.token.type), str(n.token), getattr(n.token, 'start_pos', None)]
+        return ['S', (str(n.s[0]) + '@%%d' %% n.s[1]) if n.is_intermediate else n.s.name, n.start, n.end]
+    out, seen, stack = {}, set(), [root]
+    while stack:
+        n = stack.pop()
+        if n is None or isinstance(n, TokenNode) or id(n) in seen:
+            continue
+        seen.add(id(n))
+        ins = [[str(pk.rule), lab(pk.left), lab(pk.right)] for pk in n]
+        srt = [[str(pk.rule), lab(pk.left), lab(pk.right)] for pk in n.children]
+        out[json.dumps(lab(n))] = [ins, srt]
+        for pk in n:
+            stack.append(pk.left)
+            stack.append(pk.right)
+    return sorted(out.items())
 out = []
 for c in json.load(sys.stdin):
     try:
+        if c['amb'] == 'order':
+            p = Lark(c['g'], parser='earley', ambiguity='forest', lexer=c['lexer'], priority=c['prio'])
+            out.append(forest_order(p.parse(c['text'])))
+            continue
         p = Lark(c['g'], parser='earley', ambiguity=c['amb'], lexer=c['lexer'], priority=c['prio'])
         r = p.parse(c['text'])
         if c['amb'] == 'forest':
